@@ -117,4 +117,4 @@ def run(tier="quick", seed=0, only=None):
             "rule": "specifiers reachable from parse_version_specifier over leaves on %d sampled bounds (pool of %d versions incl. pre/post/dev/epoch) "
                     "closed under random &,|,~ (%d objects); pairs/triples sampled with VERIF_SEED; den compared at every pool version; "
                     "non-trivial = at least one operand neither empty nor universal on the probe set; distinct by (op, str(a), str(b))" % (len(bounds), len(VERSIONS), len(pool)),
-            "samples": samples, "failures": fails[:50], "n_failures": len(fails), "bound": f"{len(pool)} reachable objects, {npairs} sampled pairs"}
+            "samples": samples, "failures": fails[:3000], "n_failures": len(fails), "bound": f"{len(pool)} reachable objects, {npairs} sampled pairs"}
